@@ -1,17 +1,24 @@
 From Coq Require Import Bool List.
 From Verif Require Import C01.Model C01.Spec.
 From VerifGen Require Import C01Tables.
+Import ListNotations.
 
 (* obligation on the regenerated defaults table *)
 Lemma defaults_as_documented :
   want_response_signed_default = true /\ want_assertions_signed_default = false
-  /\ want_assertions_or_response_signed_default = false.
+  /\ want_assertions_or_response_signed_default = false
+  /\ only_use_keys_in_metadata_default = true.
 Proof. repeat split; reflexivity. Qed.
 
-Lemma satisfied_b_iff x : satisfied_b x = true <-> satisfied x.
+(* ---- reflection of the boolean spec --------------------------------------------------------------- *)
+
+Lemma sat_b_iff w1 w2 w3 sr sa :
+  sat_b w1 w2 w3 sr sa = true <->
+  (ok sr /\ ok sa /\ (w1 = true -> sr = Valid) /\ (w2 = true -> sa = Valid)
+   /\ (w3 = true -> sr = Valid \/ sa = Valid)).
 Proof.
-  unfold satisfied_b, satisfied, ok.
-  destruct (rs x), (as_ x), (wr x), (wa x), (wor x); cbn; split; intros H;
+  unfold sat_b, ok.
+  destruct sr, sa, w1, w2, w3; cbn; split; intros H;
     try reflexivity; try discriminate;
     try (repeat split; auto; intros; try discriminate; auto; fail);
     try (exfalso; destruct H as (H1 & H2 & H3 & H4 & H5);
@@ -20,19 +27,288 @@ Proof.
                | destruct (H5 eq_refl); discriminate ]).
 Qed.
 
+Lemma satisfied_m_b_iff c m : satisfied_m_b c m = true <-> satisfied_m c m.
+Proof. unfold satisfied_m_b, satisfied_m. apply sat_b_iff. Qed.
+
+Lemma otherwise_valid_b_iff m : otherwise_valid_b m = true <-> otherwise_valid m.
+Proof.
+  unfold otherwise_valid_b, otherwise_valid.
+  destruct (m_bind m), (a_who m), (r_who m); cbn; split; intros H;
+    try reflexivity; try discriminate;
+    try (repeat split; try discriminate; auto; fail);
+    try (exfalso; destruct H as (H1 & H2 & [H3 | H3]); first [ apply H1; reflexivity | apply H2; reflexivity | discriminate ]).
+Qed.
+
+Lemma spec_m_b_iff c m i : spec_m_b c m i = true <-> spec_m c m i.
+Proof.
+  unfold spec_m_b, spec_m. rewrite <- satisfied_m_b_iff, <- otherwise_valid_b_iff.
+  destruct i; destruct (satisfied_m_b c m); destruct (otherwise_valid_b m); cbn;
+    intuition (try discriminate; try congruence).
+Qed.
+
+Lemma spec_seq_b_iff c ms ids : spec_seq_b c ms ids = true <-> spec_seq c ms ids.
+Proof.
+  unfold spec_seq. revert ids. induction ms as [|m ms IH]; intros [|i ids]; cbn.
+  - split; [constructor | reflexivity].
+  - split; [discriminate | intros H; inversion H].
+  - split; [discriminate | intros H; inversion H].
+  - rewrite andb_true_iff, spec_m_b_iff, IH. split.
+    + intros [H1 H2]. constructor; assumption.
+    + intros H. inversion H; subst. split; assumption.
+Qed.
+
+(* ---- what the code finds on an element vs. the state of the property text -------------------------- *)
+
+(* sound: the code sees "no signature" exactly for Absent and is content only with Valid *)
+Definition rel_sound (r : sres) (s : sigst) : bool :=
+  match r, s with
+  | SAbsent, Absent => true
+  | SOk, Valid => true
+  | SMissingKey, (Valid | Corrupt | Untrusted) | SSigErr, (Valid | Corrupt | Untrusted) => true
+  | _, _ => false
+  end.
+(* exact: moreover every Valid signature is found good *)
+Definition rel_exact (r : sres) (s : sigst) : bool :=
+  match r, s with
+  | SAbsent, Absent => true
+  | SOk, Valid => true
+  | SMissingKey, (Corrupt | Untrusted) | SSigErr, (Corrupt | Untrusted) => true
+  | _, _ => false
+  end.
+
+Lemma rel_exact_sound r s : rel_exact r s = true -> rel_sound r s = true.
+Proof. destruct r, s; cbn; congruence. Qed.
+
+(* the option plumbing of the model yields the documented values in force (4^4 settings) *)
+Lemma parse_message_eq c m :
+  parse_message c m =
+  core (wr_c c) (wa_c c) (wor_c c)
+       (look (only_md c) (r_who m) (r_schema_ok m) (m_rs m))
+       (look (only_md c) (a_issuer m) (has_issuer (a_who m)) (m_as m))
+       (issuers_match m) (m_bind m).
+Proof.
+  unfold parse_message, wr_c, wa_c, wor_c, only_md.
+  destruct c as [o1 o2 o3 o4]; destruct o1 as [|[|]|], o2 as [|[|]|], o3 as [|[|]|], o4 as [|[|]|]; reflexivity.
+Qed.
+
+(* key choice + verification of one element whose schema is in order: exactly the trusted, intact
+   signatures pass (2 x 4 x 37 cells) *)
+Lemma look_exact c w s : rel_exact (look (only_md c) w true s) (state c w s) = true.
+Proof.
+  unfold state, trusted.
+  destruct (only_md c), w, s as [[[] [] []]|]; reflexivity.
+Qed.
+
+(* an element that fails the schema never passes, whichever issuer the keys are looked up for *)
+Lemma look_noschema only w s :
+  match look only w false s with SAbsent => s = None | SOk => False | _ => s <> None end.
+Proof. destruct only, w, s as [[[] [] []]|]; cbn; congruence. Qed.
+
+Lemma look_noschema_sound c w w' s : rel_sound (look (only_md c) w false s) (state c w' s) = true.
+Proof.
+  pose proof (look_noschema (only_md c) w s) as H.
+  destruct (look _ _ false s); try contradiction.
+  - rewrite H. reflexivity.
+  - unfold state. destruct s as [g|]; [|congruence].
+    destruct (corrupt g); [reflexivity|]. destruct (trusted c w' g); reflexivity.
+  - unfold state. destruct s as [g|]; [|congruence].
+    destruct (corrupt g); [reflexivity|]. destruct (trusted c w' g); reflexivity.
+Qed.
+
+(* whatever the schema check says: never more than the trusted, intact signatures pass *)
+Lemma look_sound c w ok s : rel_sound (look (only_md c) w ok s) (state c w s) = true.
+Proof. destruct ok; [apply rel_exact_sound, look_exact | apply look_noschema_sound]. Qed.
+
+(* ... and whichever issuer the keys are looked up for (the assertion's own, or the Response's for an
+   encrypted assertion without Issuer) *)
+Lemma look_sound_a c m :
+  rel_sound (look (only_md c) (a_issuer m) (has_issuer (a_who m)) (m_as m)) (a_state c m) = true.
+Proof.
+  unfold a_state, a_issuer.
+  destruct (a_who m) eqn:Ha; cbn [has_issuer]; try (apply rel_exact_sound, look_exact).
+  apply look_noschema_sound.
+Qed.
+
+Lemma look_exact_r c m :
+  has_issuer (a_who m) = true ->
+  rel_exact (look (only_md c) (r_who m) (r_schema_ok m) (m_rs m)) (r_state c m) = true.
+Proof. intros H. unfold r_schema_ok, r_state. rewrite H, orb_true_r. apply look_exact. Qed.
+
+Lemma look_exact_a c m :
+  has_issuer (a_who m) = true ->
+  rel_exact (look (only_md c) (a_issuer m) (has_issuer (a_who m)) (m_as m)) (a_state c m) = true.
+Proof.
+  intros H. unfold a_state, a_issuer. rewrite H.
+  destruct (a_who m); try discriminate; apply look_exact.
+Qed.
+
+(* ---- the two-pass control flow over what it finds --------------------------------------------------- *)
+
+(* soundness of the flow: 2^3 options x the 8 x 8 related (finding, state) pairs x 2 x 4 bindings *)
+Lemma core_sound w1 w2 w3 r a sr sa im b :
+  rel_sound r sr = true -> rel_sound a sa = true ->
+  implb (core w1 w2 w3 r a im b) (sat_b w1 w2 w3 sr sa) = true.
+Proof.
+  intros H1 H2.
+  destruct r, sr; try discriminate H1; clear H1;
+    destruct a, sa; try discriminate H2; clear H2;
+    destruct w1, w2, w3, im, b; reflexivity.
+Qed.
+
+Lemma core_complete w1 w2 w3 r a sr sa b :
+  rel_exact r sr = true -> rel_exact a sa = true ->
+  implb (sat_b w1 w2 w3 sr sa && negb (is_paos b)) (core w1 w2 w3 r a true b) = true.
+Proof.
+  intros H1 H2.
+  destruct r, sr; try discriminate H1; clear H1;
+    destruct a, sa; try discriminate H2; clear H2;
+    destruct w1, w2, w3, b; reflexivity.
+Qed.
+
+(* the truth table, for every configuration and every message *)
+Lemma table_m c m : spec_m_b c m (parse_message c m) = true.
+Proof.
+  unfold spec_m_b. rewrite parse_message_eq.
+  pose proof (look_sound c (r_who m) (r_schema_ok m) (m_rs m)) as Hr.
+  pose proof (look_exact_r c m) as Hre.
+  pose proof (look_sound_a c m) as Ha.
+  pose proof (look_exact_a c m) as Hae.
+  set (r := look _ (r_who m) _ (m_rs m)) in *.
+  set (a := look _ (a_issuer m) _ (m_as m)) in *.
+  apply andb_true_iff; split.
+  - unfold satisfied_m_b. exact (core_sound _ _ _ _ _ _ _ _ _ Hr Ha).
+  - destruct (satisfied_m_b c m && otherwise_valid_b m) eqn:Hs; [|reflexivity].
+    cbn [implb]. apply andb_true_iff in Hs. destruct Hs as [Hs Ho].
+    unfold otherwise_valid_b in Ho. apply andb_true_iff in Ho. destruct Ho as [Ho Him].
+    apply andb_true_iff in Ho. destruct Ho as [Hb Hi].
+    unfold issuers_match. rewrite Him.
+    pose proof (core_complete (wr_c c) (wa_c c) (wor_c c) r a (r_state c m) (a_state c m) (m_bind m) (Hre Hi) (Hae Hi)) as Hc.
+    unfold satisfied_m_b in Hs. rewrite Hs, Hb in Hc. exact Hc.
+Qed.
+
+Lemma policy_holds_m c m : spec_m c m (parse_message c m).
+Proof. apply spec_m_b_iff, table_m. Qed.
+
+(* ---- sequences: a long-lived SP ------------------------------------------------------------------- *)
+
+Lemma sequence_holds c ms : spec_seq c ms (sp_run c ms).
+Proof.
+  unfold spec_seq, sp_run. induction ms as [|m ms IH]; cbn; constructor; [apply policy_holds_m | exact IH].
+Qed.
+
+(* the verdict on a message does not depend on what the SP consumed before *)
+Lemma history_independent c pre m : sp_run c (pre ++ [m]) = sp_run c pre ++ [parse_message c m].
+Proof. unfold sp_run. rewrite map_app. reflexivity. Qed.
+
+(* ---- the message cannot vouch for its own key ---------------------------------------------------- *)
+
+Definition strip_ki_sig (s : option sgn) : option sgn :=
+  match s with None => None | Some g => Some {| signer := signer g; ki := KiNone; corrupt := corrupt g |} end.
+Definition strip_ki (m : msg) : msg :=
+  {| r_who := r_who m; a_who := a_who m; m_rs := strip_ki_sig (m_rs m); m_as := strip_ki_sig (m_as m);
+     m_enc := m_enc m; m_bind := m_bind m |}.
+
+Lemma look_ignores_keyinfo w ok s : look true w ok (strip_ki_sig s) = look true w ok s.
+Proof. destruct w, ok, s as [[[] [] []]|]; reflexivity. Qed.
+
+(* with only_use_keys_in_metadata in force (the default) the KeyInfo of the message is irrelevant *)
+Lemma keyinfo_ignored c m : only_md c = true -> parse_message c (strip_ki m) = parse_message c m.
+Proof.
+  intros H. rewrite !parse_message_eq, H.
+  destruct m as [rw aw r a e b]; cbn [strip_ki r_who a_who m_rs m_as m_enc m_bind a_issuer issuers_match r_schema_ok].
+  rewrite !look_ignores_keyinfo. reflexivity.
+Qed.
+
+(* necessity: with only_use_keys_in_metadata in force, a present signature made by a key that the
+   metadata does not publish as a signing key of the issuer the signed element names — or made over
+   other content — never yields an identity, whatever the three want_* options say *)
+Definition vouched (w : who) (s : option sgn) : Prop :=
+  match s with None => True | Some g => corrupt g = false /\ md_trusts w (signer g) = true end.
+
+Lemma state_ok_vouched c w s : only_md c = true -> ok (state c w s) -> vouched w s.
+Proof.
+  unfold state, trusted, ok, vouched. intros H. rewrite H. cbn [negb andb].
+  destruct s as [g|]; [|trivial].
+  destruct (corrupt g); [intros [K|K]; discriminate|].
+  rewrite orb_false_r. destruct (md_trusts w (signer g)); [auto | intros [K|K]; discriminate].
+Qed.
+
+Lemma identity_needs_metadata_keys c m :
+  only_md c = true -> parse_message c m = true -> vouched (r_who m) (m_rs m) /\ vouched (a_who m) (m_as m).
+Proof.
+  intros H Hp. destruct (policy_holds_m c m) as [Hs _]. destruct (Hs Hp) as (H1 & H2 & _).
+  split; eapply state_ok_vouched; eauto.
+Qed.
+
+(* ---- the single-message view of round 1 (C09 composes with policy_holds) ------------------------------- *)
+
+Lemma satisfied_b_iff x : satisfied_b x = true <-> satisfied x.
+Proof. unfold satisfied_b, satisfied. apply sat_b_iff. Qed.
+
 Lemma spec_b_iff x i : spec_b x i = true <-> spec x i.
 Proof.
   unfold spec_b, spec. rewrite <- !satisfied_b_iff.
   destruct i; destruct (satisfied_b x); destruct (binding x); cbn; intuition (try discriminate; try congruence).
 Qed.
 
-(* the truth table: the control flow accepts exactly the satisfied cells (all 4^3 option settings
-   x 4 x 4 signature states x 2 x 4 bindings = 8192 cells) *)
-Lemma table x : spec_b x (parse_response x) = true.
+(* the states of round 1 are the states the property text derives for the embedded message *)
+Lemma state_sgn_of o1 o2 o3 s :
+  state {| c_wr := o1; c_wa := o2; c_wor := o3; c_only := Unset |} WIdp (sgn_of s) = s.
+Proof. destruct s; reflexivity. Qed.
+
+Lemma satisfied_b_embed x : satisfied_m_b (config_of x) (msg_of x) = satisfied_b x.
 Proof.
-  destruct x as [a b c r s e bd].
-  destruct a as [|[|]|], b as [|[|]|], c as [|[|]|], r, s, e, bd; vm_compute; reflexivity.
+  unfold satisfied_m_b, satisfied_b, r_state, a_state, config_of, msg_of; cbn [r_who a_who m_rs m_as].
+  rewrite !state_sgn_of. reflexivity.
 Qed.
+
+Lemma spec_b_embed x i : spec_m_b (config_of x) (msg_of x) i = spec_b x i.
+Proof.
+  unfold spec_m_b, spec_b. rewrite satisfied_b_embed. unfold otherwise_valid_b, msg_of; cbn.
+  rewrite !andb_true_r. reflexivity.
+Qed.
+
+(* the truth table of round 1 (4^3 option settings x 4 x 4 signature states x 2 x 4 bindings = 8192
+   cells) is the instance "Response and assertion of the IdP, metadata keys only" of the general one *)
+Lemma table x : spec_b x (parse_response x) = true.
+Proof. rewrite <- spec_b_embed. apply table_m. Qed.
 
 Lemma policy_holds x : spec x (parse_response x).
 Proof. apply spec_b_iff, table. Qed.
+
+(* ---- non-vacuity ----------------------------------------------------------------------------------- *)
+
+Definition defaults := {| c_wr := Unset; c_wa := Unset; c_wor := Unset; c_only := Unset |}.
+Definition by_ (k : key) (i : kinfo) (c : bool) := Some {| signer := k; ki := i; corrupt := c |}.
+
+(* the accepted cell of the defaults *)
+Example accepts_signed_response :
+  parse_message defaults {| r_who := WIdp; a_who := WIdp; m_rs := by_ KIdp KiNone false; m_as := None; m_enc := false; m_bind := POST |} = true.
+Proof. reflexivity. Qed.
+
+(* an issuer without metadata that ships its own certificate: rejected by default, accepted only
+   under the documented opt-out *)
+Example self_vouching_rejected :
+  let m := {| r_who := WUnknown; a_who := WUnknown; m_rs := by_ KAttacker KiSigner false;
+              m_as := by_ KAttacker KiSigner false; m_enc := false; m_bind := POST |} in
+  parse_message defaults m = false
+  /\ parse_message {| c_wr := Unset; c_wa := Unset; c_wor := Unset; c_only := B false |} m = true.
+Proof. split; reflexivity. Qed.
+
+(* a Response without Issuer, signed by anybody, around an unsigned assertion of the trusted IdP *)
+Example issuerless_envelope_rejected :
+  parse_message defaults {| r_who := WNone; a_who := WIdp; m_rs := by_ KAttacker KiSigner false; m_as := None; m_enc := false; m_bind := POST |} = false.
+Proof. reflexivity. Qed.
+
+(* the encryption-only key of the IdP is not a signing key *)
+Example encryption_key_rejected :
+  parse_message defaults {| r_who := WIdp; a_who := WIdp; m_rs := by_ KIdpEnc KiNone false; m_as := None; m_enc := false; m_bind := POST |} = false.
+Proof. reflexivity. Qed.
+
+(* genuine message, then the same signature around rewritten content, then the genuine one again *)
+Example forged_after_genuine :
+  let c := {| c_wr := B false; c_wa := B true; c_wor := Unset; c_only := Unset |} in
+  let g := {| r_who := WIdp; a_who := WIdp; m_rs := None; m_as := by_ KIdp KiNone false; m_enc := false; m_bind := POST |} in
+  let f := {| r_who := WIdp; a_who := WIdp; m_rs := None; m_as := by_ KIdp KiNone true; m_enc := false; m_bind := POST |} in
+  sp_run c [g; f; g] = [true; false; true].
+Proof. reflexivity. Qed.
